@@ -354,6 +354,7 @@ struct pattern {
 	int has_dot, has_neg;
 	int n_escaped_hex, n_escaped_plain;   /* literals written as \xHHHH / as a needlessly escaped character */
 	int anchor;                 /* bit 0: begins with ^, bit 1: ends with $ */
+	int n_props;                /* \\pN property classes */
 	char text[PAT_MAX * 7 + 8]; /* printable form for details */
 };
 
@@ -388,16 +389,19 @@ static void pat_literal(struct pattern *p, const uint16_t *s, int n, int casefol
 }
 
 /* regex symbols seen so far, for the overlap classification */
-struct symset { int dot, neg, cls; uint16_t ch[8]; int n; };  /* cls: bracket expression (never the same ure symbol as a plain character) */
+struct symset { int dot, neg, cls, prop; uint16_t ch[8]; int n; };  /* prop: \\pN property class 1 digit, 2 lowercase, 3 uppercase */  /* cls: bracket expression (never the same ure symbol as a plain character) */
 static struct symset syms[32];
 static int n_syms;
 
 static unsigned foldc(unsigned c, int casefold) { return casefold ? ((unsigned)towlower((wint_t)c) & 0xFFFF) : c; }
 
+static int prop_of(unsigned c) { return iswdigit((wint_t)c) ? 1 : iswlower((wint_t)c) ? 2 : iswupper((wint_t)c) ? 3 : 0; }
+
 static int sym_contains(const struct symset *s, unsigned c)
 {
 	int i, in = 0;
 	if (s->dot) return c != 0x0A;
+	if (s->prop) return prop_of(c) == s->prop;
 	for (i = 0; i < s->n; i++) if (s->ch[i] == c) in = 1;
 	return s->neg ? (!in && c != 0x0A) : in;
 }
@@ -412,7 +416,7 @@ static int in_list(const struct symset *s, unsigned c)
 static int sym_equal(const struct symset *a, const struct symset *b)
 {
 	int i;
-	if (a->dot != b->dot || a->neg != b->neg || a->cls != b->cls) return 0;
+	if (a->dot != b->dot || a->neg != b->neg || a->cls != b->cls || a->prop != b->prop) return 0;
 	for (i = 0; i < a->n; i++) if (!in_list(b, a->ch[i])) return 0;
 	for (i = 0; i < b->n; i++) if (!in_list(a, b->ch[i])) return 0;
 	return 1;
@@ -426,6 +430,7 @@ static int syms_overlap(void)
 			const struct symset *a = &syms[i], *b = &syms[j];
 			if (sym_equal(a, b)) continue;
 			if ((a->dot || a->neg) && (b->dot || b->neg)) return 1;
+			if ((a->prop && (b->dot || b->neg)) || (b->prop && (a->dot || a->neg))) return 1;
 			for (k = 0; k < a->n; k++) if (!a->neg && sym_contains(b, a->ch[k])) return 1;
 			for (k = 0; k < b->n; k++) if (!b->neg && sym_contains(a, b->ch[k])) return 1;
 		}
@@ -440,19 +445,29 @@ static void put(struct pattern *p, unsigned c)
 
 static struct vf_rng *lit_rng;      /* set while a regular expression is generated */
 
+/* does the ure expression so far end in a bare property class \pN1,N2 (whose number list a following digit or
+ * comma would continue)? */
+static int ure_tail_is_prop(const struct pattern *p)
+{
+	int i = p->n_ure;
+	while (i > 0 && ((p->ure[i - 1] >= '0' && p->ure[i - 1] <= '9') || p->ure[i - 1] == ',')) i--;
+	return i >= 2 && i < p->n_ure && (p->ure[i - 1] == 'p' || p->ure[i - 1] == 'P') && p->ure[i - 2] == '\\';
+}
+
 static void put_lit(struct pattern *p, unsigned c)
 {
 	struct symset *s = &syms[n_syms < 31 ? n_syms++ : 31];
+	int must_escape = p->regexp && lit_rng && ((c >= '0' && c <= '9') || c == ',') && ure_tail_is_prop(p);
 	memset(s, 0, sizeof *s);
 	s->ch[0] = (uint16_t)foldc(c, p->casefold); s->n = 1;
-	if (p->regexp && lit_rng && vf_chance(lit_rng, 1, 5)) {
+	if (p->regexp && lit_rng && (must_escape || vf_chance(lit_rng, 1, 5))) {
 		/* The same literal written as an escape (ure.c _ure_compile_symbol): \xHHHH, \uHHHH with one to four hex
 		 * digits (four are written, so that a following hex digit of the pattern is not swallowed), or a
 		 * backslash in front of a character that needs none.  The reference expression gets the plain literal. */
 		static const char hexd[2][17] = { "0123456789abcdef", "0123456789ABCDEF" };
 		int k, up = (int)vf_below(lit_rng, 2);
 		if (p->n_ure < PAT_MAX - 6) {
-			if (vf_chance(lit_rng, 2, 3) || c >= 0x80 || strchr("pPabfnrtvxXuU", (int)c) || is_ere_special(c)) {
+			if (must_escape || vf_chance(lit_rng, 2, 3) || c >= 0x80 || strchr("pPabfnrtvxXuU", (int)c) || is_ere_special(c)) {
 				p->ure[p->n_ure++] = '\\';
 				p->ure[p->n_ure++] = (uint16_t)"xXuU"[vf_below(lit_rng, 4)];
 				for (k = 12; k >= 0; k -= 4) p->ure[p->n_ure++] = (uint16_t)hexd[up][(c >> k) & 15];
@@ -526,7 +541,21 @@ static int put_piece(struct vf_rng *r, struct pattern *p, unsigned c, const uint
 {
 	unsigned form = vf_below(r, 100), q;
 	int group = 0;
-	if (form < 45) put_lit(p, c);
+	if (!p->casefold && prop_of(c) && ((form >= 36 && form < 45) || (p->n_props && vf_chance(r, 1, 2)))) {
+		/* character property class \pN (a documented extension): 4 digit, 6 lowercase, 10 uppercase; the same
+		 * wctype predicates as the POSIX classes of the reference matcher in the same locale */
+		static const char *const ure_p[4] = { "", "\\p4", "\\p6", "\\p10" }, *const ere_p[4] = { "", "[[:digit:]]", "[[:lower:]]", "[[:upper:]]" };
+		struct symset *s = &syms[n_syms < 31 ? n_syms++ : 31];
+		const char *q2;
+		int k = prop_of(c);
+		memset(s, 0, sizeof *s); s->cls = 1; s->prop = k;
+		int br = vf_chance(r, 1, 2);     /* "[...\\p1,3,4]": a class may consist of a property class */
+		if (br && p->n_ure < PAT_MAX) p->ure[p->n_ure++] = '[';
+		for (q2 = ure_p[k]; *q2; q2++) if (p->n_ure < PAT_MAX) p->ure[p->n_ure++] = (uint16_t)(unsigned char)*q2;
+		if (br && p->n_ure < PAT_MAX) p->ure[p->n_ure++] = ']';
+		for (q2 = ere_p[k]; *q2; q2++) if (p->n_ere < PAT_MAX * 2) p->ere_us[p->n_ere++] = (uint16_t)(unsigned char)*q2;
+		p->n_props++;
+	} else if (form < 45) put_lit(p, c);
 	else if (form < 58) {
 		struct symset *s = &syms[n_syms < 31 ? n_syms++ : 31];
 		memset(s, 0, sizeof *s); s->dot = 1; p->has_dot = 1;
@@ -1425,6 +1454,23 @@ static int run_session(struct vf_rng *r, int shape, long idx)
 	ss.subno = pick_start_subno(r, ss.pgno);
 	ss.dir = vf_chance(r, 1, 2) ? +1 : -1;
 	ss.use_progress = !vf_chance(r, 1, 3);
+	/* hex-numbered pages cached: one session in five starts at the first page of the next decade above one of them
+	 * (1AB -> 1B0, 19C -> 1A0, 2FE -> 300), mostly backwards with subpage 0 or any: everything between the decimal
+	 * predecessor of the start page and the start page itself is hex-numbered and comes first in a backward pass */
+	if (vf_chance(r, 1, 5)) {
+		int k, cand[MAXDB], nc = 0;
+		for (k = 0; k < n_db; k++) if (!vbi_is_bcd(db[k].pgno)) cand[nc++] = k;
+		if (nc) {
+			int hp = db[cand[vf_below(r, (unsigned)nc)]].pgno, st = (hp & 0xFF0) + 0x10;
+			if ((st & 0xFF) == 0xFF || (st & 0xFF) == 0) st = (hp & 0xF00) + 0x100;   /* xF0 + 10 -> next magazine */
+			if (st >= 0x100 && st <= 0x8FE && (st & 0xFF) != 0xFF) {
+				ss.pgno = st;
+				ss.subno = vf_chance(r, 1, 2) ? 0 : vf_chance(r, 1, 2) ? VBI_ANY_SUBNO : pick_start_subno(r, st);
+				ss.dir = vf_chance(r, 3, 4) ? -1 : +1;
+				vf_count("sessions_starting_at_decade_above_hex_page", 1);
+			}
+		}
+	}
 	switch (vf_below(r, 10)) {
 	case 0: case 1: ss.plan = 1; ss.change_after = vf_range(r, 1, 3); break;
 	case 2: ss.plan = 2; break;
@@ -1469,6 +1515,8 @@ static int run_session(struct vf_rng *r, int shape, long idx)
 	if (pat.n_escaped_plain) vf_count("patterns_with_needlessly_escaped_literal", 1);
 	if (pat.casefold && (pat.n_escaped_hex || pat.n_escaped_plain)) vf_count("patterns_casefold_with_escaped_literal", 1);
 	if (pat.regexp && pat.overlap) vf_count("patterns_regexp_overlapping_symbols", 1);
+	if (pat.n_props) vf_count("patterns_with_property_class", 1);
+	if (pat.n_props > 1) vf_count("patterns_with_several_property_classes", 1);
 	if (pat.anchor & 1) vf_count("patterns_anchored_at_row_start", 1);
 	if (pat.anchor & 2) vf_count("patterns_anchored_at_row_end", 1);
 	if (pat.anchor && nmatch) vf_count("anchored_patterns_with_matching_pages", 1);
